@@ -47,6 +47,7 @@ class Engine:
         self.unwind_mode = unwind  # 'assert': hitting the bound is INCONCLUSIVE; 'assume': the path is cut and counted
         self.cut_paths = 0
         self.count_budget = None
+        self._defaults = {}
         self.loop_limits = {}  # (module, function qualname) -> (bound, 'assert'|'assume') for its while loops
         self.intmode, self.W, self.unroll, self.merge_ifs, self.bytes_domain = intmode, width, unroll, merge_ifs, bytes_domain
         self.modules = {}  # name -> dict(tree, real, funcs{name:FuncRef}, classes{name:SClass})
@@ -678,7 +679,11 @@ class Engine:
                 di = i - (len(params) - len(defaults))
                 if di < 0:
                     raise ModelRaise("TypeError", cls=TypeError)
-                env[p] = self.expr(defaults[di], env)
+                # default values are evaluated ONCE, when the function is defined (not per call)
+                cache = self._defaults.setdefault(id(node), {})
+                if di not in cache:
+                    cache[di] = self.expr(defaults[di], {"__module__": modname})
+                env[p] = cache[di]
         for p, d in zip(a.kwonlyargs, a.kw_defaults):
             env[p.arg] = kw[p.arg] if p.arg in kw else (self.expr(d, env) if d is not None else None)
         if isinstance(node, ast.Lambda):
